@@ -25,6 +25,14 @@ case "${1:-}" in
     echo "usage: $0 setup | <ID> quick|thorough | <ID> --replay <file> | selftest [IDs]" >&2
     exit 2;;
 esac
-build
+if [ "${1:-}" = "C17" ] && [ "${2:-${VERIF_TIER:-quick}}" = "thorough" ]; then
+  # arm B of C17: the same simulator built with the race detector
+  if ! $GO test -race -c -tags verif -o bin/vsim.test ./cmd/vsim >bin/build.log 2>&1; then
+    echo "RACE BUILD FAILED (harness trouble, not a violation):" >&2; tail -30 bin/build.log >&2; exit 2
+  fi
+  export GORACE="halt_on_error=0"
+else
+  build
+fi
 export VSIM_SCRATCH="${VSIM_SCRATCH:-/dev/shm}"
 VSIM_ARGS="$*" exec bin/vsim.test -test.run '^TestVsim$' -test.timeout 0
